@@ -1177,8 +1177,8 @@ def index_unpacked_rows(modules, known, rep):
                 i += 1
                 tgt = None
                 if isinstance(n, ast.Assign) and len(n.targets) == 1 and isinstance(n.targets[0], ast.Tuple) and not isinstance(n.value, (ast.Tuple, ast.List)) \
-                        and _is_fresh(n, fn, kh):
-                    tgt = n.targets[0]
+                        and _is_fresh(n, fn, kh) and not (isinstance(n.value, ast.Call) and isinstance(n.value.func, ast.Attribute) and n.value.func.attr == "decode"):
+                    tgt = n.targets[0]   # (the codec's (message, consumed, raw) triple keeps its unpacked form: the reader rules are anchored on it)
                 elif isinstance(n, ast.For) and isinstance(n.target, ast.Tuple) and _is_fresh(n, fn, kh):
                     tgt = n.target
                 if tgt is None or len(tgt.elts) < 3 or not all(isinstance(e, ast.Name) for e in tgt.elts):
